@@ -6,7 +6,8 @@
      packed records and values     C17_fields_roundtrip, C17_value_roundtrip, C17_entry_fields
      key table                     C17_table_walk_roundtrip (+ C17_walk_progress on arbitrary bytes), C17_entry_decodes
      tree                          C17_link_entries_roundtrip, C17_link_roundtrip (any tree, any layout, any order)
-     bytes of key tables -> tree   C17_key_tables_roundtrip (the composition of the above)
+     bytes of key tables -> tree   C17_key_tables_roundtrip (the composition of the above),
+                                   C17_registry_roundtrip (with competing lower-sequence tables, any order)
      selection rules               C17_free_ignored, C17_active_header, C17_active_key_table
      tie to the source             C17_layouts_and_literals (generated layouts / enums / literals)
    and the object-table worklist of HyperVFile.__init__ (property C11, repaired code):
@@ -122,6 +123,22 @@ Theorem C17_key_tables_roundtrip :
     exists t, link (tables_of f fo kts) = Ok t /\ tree_equiv t (Node (map erase F)).
 Proof. exact key_tables_roundtrip. Qed.
 Print Assumptions C17_key_tables_roundtrip.
+
+(* ... WITH COMPETING TABLES.  All = every key table the object tables list, parsed, in the order met
+   (any order); Ts = the stored tables that should win: for every table in All there is one in Ts
+   with the same index which is that table or has a strictly higher sequence number.  The registry
+   HyperVFile.__init__ builds from All selects exactly Ts, and linking gives F.
+   (Model.active_tables f st = active_of f (s_fobjs st) (s_kts st), by definition.) *)
+Theorem C17_registry_roundtrip :
+  forall f fo (All : list ktable) (Ts : list stable) F,
+  Forall (stable_ok f fo) Ts -> NoDup (map st_idx Ts) ->
+  (forall T, In T Ts -> In (kt_of T) All) ->
+  (forall kt, In kt All -> exists T, In T Ts /\ st_idx T = kt_index kt /\ (kt = kt_of T \/ kt_seq kt < st_seq T)) ->
+  Permutation (flat_map (fun T => live_of (st_slots T)) Ts) (flat_forest root_id F) ->
+  NoDup (root_id :: flat_map aids F) -> forest_keys_unique F ->
+  exists t, link (active_of f fo (registry All)) = Ok t /\ tree_equiv t (Node (map erase F)).
+Proof. exact registry_roundtrip. Qed.
+Print Assumptions C17_registry_roundtrip.
 
 (* free entries are ignored: a file decodes to what it decodes to without them *)
 Theorem C17_free_ignored :
